@@ -1180,7 +1180,7 @@ def _wf_case(op):
 def replay_op(op, failure):
     if op.startswith("cal.wf"):
         return _wf_case(op)
-    if op.startswith(("('instant'", "('duration'", "('ldt'", "('ld'", "('ym'", "('zi'")):
+    if op.startswith(("('instant'", "('duration'", "('ldt'", "('ld'", "('ym'", "('zi'", "('iv'")):
         import ast
         import c12_routes
         return c12_routes.case_fn(ast.literal_eval(op))
